@@ -77,6 +77,8 @@ type Ctx struct {
 	Programs   int
 	Disagree   int
 	findings   []Finding
+	sigs       map[string]int
+	files      int
 	Broken     []string // machinery failures -> exit 2
 }
 
@@ -96,6 +98,12 @@ func NewCtx(prop, tier, level string) *Ctx {
 		panic(err)
 	}
 	c.findings = LoadFindings(prop)
+	// replay files of earlier runs of this property are stale
+	if old, _ := filepath.Glob(filepath.Join(Root, "replays", prop+"-*.json")); len(old) > 0 {
+		for _, f := range old {
+			_ = os.Remove(f)
+		}
+	}
 	return c
 }
 
@@ -194,11 +202,22 @@ func (c *Ctx) Report(what string, desc map[string]string, replay any) {
 			return
 		}
 	}
+	if sig := desc["sig"]; sig != "" {
+		if c.sigs == nil {
+			c.sigs = map[string]int{}
+		}
+		c.sigs[sig]++
+		if c.sigs[sig] > 2 { // at most two replay files per signature
+			c.violations = append(c.violations, Violation{What: what})
+			return
+		}
+	}
 	// one replay file per distinct "what" (cap the number of files)
-	if len(c.violations) >= 20 {
+	if c.files >= 120 {
 		c.violations = append(c.violations, Violation{What: what})
 		return
 	}
+	c.files++
 	dir := filepath.Join(Root, "replays")
 	_ = os.MkdirAll(dir, 0o755)
 	h := sha256.Sum256([]byte(what + fmt.Sprint(desc)))
@@ -263,6 +282,17 @@ func (c *Ctx) Finish() int {
 			fmt.Println("BROKEN:", b)
 		}
 		return 2
+	}
+	if len(c.sigs) > 0 {
+		var ks []string
+		for k := range c.sigs {
+			ks = append(ks, k)
+		}
+		sort.Strings(ks)
+		fmt.Println("violation classes (signature: count):")
+		for _, k := range ks {
+			fmt.Printf("  %s: %d\n", k, c.sigs[k])
+		}
 	}
 	if len(c.violations) > 0 {
 		seen := map[string]bool{}
